@@ -7,9 +7,9 @@ CONSTANTS
   Variants = {"asis", "fixed"}
   Cuts = FALSE
   Kinds = {"T2", "T1S", "T1D", "T512"}
-  Sizes = {3, 5}
+  Sizes = {1, 2, 3, 5}
   Pads = {0, 1, 2, 3}
-  Props = {0, 77}
+  Props = {0, 77, 113}
   CtlFroms = {2, 3, 4, 5, 6, 7, 8, 9, 11, 13, 16, 19, 22, 26, 30, 34, 38}
   MemSizes = {1, 2, 3, 0}
   LockBits = {1, 7, 9, 12, 17, 0}
